@@ -11,7 +11,7 @@ def run_patch(patch):
     patch = os.path.abspath(patch)
     tmp = tempfile.mkdtemp(prefix='verif_all_')
     try:
-        subprocess.run(['rsync', '-a', '--exclude', '_build', '--exclude', '.git', '--exclude', 'OUT', '/repo/', tmp + '/'], check=True)
+        subprocess.run(['rsync', '-a', '--exclude', '_build', '--exclude', '.git', '--exclude', 'OUT', os.environ.get('VERIF_SRC_REPO', '/repo').rstrip('/') + '/', tmp + '/'], check=True)
         r = subprocess.run(['git', 'apply', '--whitespace=nowarn', patch], cwd=tmp, capture_output=True, text=True)
         if r.returncode:
             r = subprocess.run(['patch', '-p1', '-s', '-f', '-i', patch], cwd=tmp, capture_output=True, text=True)
